@@ -207,6 +207,16 @@ func degenerateLine(d []float64) bool {
 	return false
 }
 
+// controlOnEndpoint: a quadratic Bezier whose control point lies extremely close to (within 1e-6 of
+// the first leg of, but not exactly on) its end point. quadraticBezierLength computes
+// Sabc = 2 sqrt(A+B+C) with A+B+C = 4|p2-p1|^2 by cancellation of terms of size |p1-p0|^2: below a
+// relative distance of about 1e-7 the sum can come out slightly negative and the square root is NaN.
+// Reachable through the builder when the distance exceeds Epsilon (MoveTo(-2,-12.115)
+// QuadTo(2,2, 2.000000001,2)); known finding C09-length-nan-control-on-endpoint.
+func controlOnEndpoint(s hc.Seg) bool {
+	return s.Kind == 'Q' && s.P1 != s.End && s.P1.Dist(s.End) <= 1e-6*s.P1.Dist(s.P0)
+}
+
 func causes(segs []hc.Seg) string {
 	var cs []string
 	has := func(f func(hc.Seg) bool) bool {
@@ -219,6 +229,9 @@ func causes(segs []hc.Seg) string {
 	}
 	if has(collinearQuad) {
 		cs = append(cs, "+collinear-quad")
+	}
+	if has(controlOnEndpoint) {
+		cs = append(cs, "+control-on-endpoint")
 	}
 	if has(wideEllipticArc) {
 		cs = append(cs, "+wide-elliptic-arc")
@@ -440,7 +453,7 @@ func oracleReverse(c *hc.Ctx) {
 				c.Count("reverse length-differs-by-more-than-1e-9")
 			}
 		} else {
-			c.Count("reverse length-not-finite")
+			c.Fail("reverse-length:not-finite"+causes(append(append([]hc.Seg{}, sa...), sb...)), fmt.Sprintf("Length %v, of the reverse %v", l0, l1), replay)
 		}
 		btol := 1e-7 * scale
 		if !(math.Abs(b0.X0-b1.X0) <= btol && math.Abs(b0.Y0-b1.Y0) <= btol && math.Abs(b0.X1-b1.X1) <= btol && math.Abs(b0.Y1-b1.Y1) <= btol) {
@@ -567,8 +580,8 @@ func firstLine(s string) string {
 	return s
 }
 
-// suspects are inputs of recorded findings, replayed on every run so that a stale entry is noticed
-// (the finding is reported as KNOWN-FINDING as long as the real code still fails on it).
+// suspects are the inputs of repaired defects (known_findings.json: status fixed; commits feae37f,
+// 4102be9, 91f82bb), replayed on every run as regression assertions: a recurrence is a VIOLATION.
 func suspects(c *hc.Ctx) {
 	{
 		p := canvas.MustParseSVGPath("M7.75 2.25A16.25 1.702 59.99999999999999 1 0 4 -4.246")
@@ -578,7 +591,7 @@ func suspects(c *hc.Ctx) {
 		if msg := hc.Try(func() { p.SplitAt(append([]float64{}, ts...)...) }); msg != "" {
 			c.Fail("panic:SplitAt:"+firstLine(msg)+causes(segs), "SplitAt panicked: "+firstLine(msg), map[string]any{"path": p.String(), "ts": ts})
 		} else {
-			c.Count("suspect no-longer-fails:splitat-arc-panic")
+			c.Count("regression input ok:splitat-arc-close-cuts")
 		}
 	}
 	{
@@ -588,7 +601,7 @@ func suspects(c *hc.Ctx) {
 		if l := p.Length(); !finite(l) {
 			c.Fail("length-not-finite:Q"+causes(segs), fmt.Sprintf("Length() = %v for %q", l, p.String()), map[string]any{"path": p.String()})
 		} else {
-			c.Count("suspect no-longer-fails:length-not-finite")
+			c.Count("regression input ok:length-collinear-quad")
 		}
 	}
 	{
@@ -602,7 +615,7 @@ func suspects(c *hc.Ctx) {
 		}); msg != "" || strings.Join(out, " | ") != "M0 0L3 0 | M3 0L10 0M0 5L2 5 | M2 5L5 5 | M5 5L10 5L10 8" {
 			c.Fail("splitat-geometry+multi-subpath", fmt.Sprintf("SplitAt(3,12,15) of %q = %v %s", p.String(), out, msg), map[string]any{"path": p.String(), "ts": []float64{3, 12, 15}, "pieces": out})
 		} else {
-			c.Count("suspect no-longer-fails:splitat-multi-subpath")
+			c.Count("regression input ok:splitat-multi-subpath")
 		}
 	}
 }
@@ -631,8 +644,13 @@ func oracleSplitAt(c *hc.Ctx) {
 			multi = "+multi-subpath"
 		}
 		var L float64
-		if msg := hc.Try(func() { L = p.Length() }); msg != "" || !finite(L) || L <= 1e-6 {
-			c.Count("splitat skip:length-unusable")
+		if msg := hc.Try(func() { L = p.Length() }); msg != "" || !finite(L) {
+			wk, ws := worstSegment(segs)
+			c.Fail("length-not-finite:"+string(wk)+causes([]hc.Seg{ws}), fmt.Sprintf("Length() = %v %s for %q", L, msg, p.String()), map[string]any{"path": p.String()})
+			continue
+		}
+		if L <= 1e-6 {
+			c.Count("splitat skip:zero-length-path")
 			continue
 		}
 		segTrue := make([]float64, len(segs))
@@ -711,31 +729,33 @@ func oracleSplitAt(c *hc.Ctx) {
 			c.Fail("splitat-piece-count"+multi+cs, fmt.Sprintf("%d cuts inside (0.03 L, 0.97 L) gave %d pieces", m, len(qs)), replay)
 			continue
 		}
-		if multi != "" {
-			// per-subpath behaviour: the pieces taken together must still draw the original path
-			orig := finePolyline(segs, 256)
-			scale := bboxScale(orig)
-			bad := ""
-			for i, sg := range pieceSegs {
-				for _, s := range sg {
-					for _, pt := range segSamples(s, 8) {
-						if d := distToPolylines(pt, orig); !(d <= 1e-3*scale) {
-							bad = fmt.Sprintf("piece %d (%q) has a point %v that is %.3g away from the path", i, qs[i].String(), pt, d)
-						}
-					}
-				}
-			}
-			if bad != "" {
-				c.Fail("splitat-geometry"+multi, bad, replay)
-			} else {
-				c.Count("splitat multi-subpath geometry-ok")
-			}
-			continue
-		}
-
 		// consecutive pieces: each starts where the previous one ends
+		// (per subpath: a piece may run over the end of a subpath into the next one - an inner MoveTo to
+		// that subpath's start directly after the previous subpath's end - and a piece that follows a
+		// cut at the very end of a subpath starts at the next subpath's start)
 		bad := ""
 		first, last := segs[0].P0, segs[len(segs)-1].End
+		var subStarts, subEnds []hc.P2
+		if all, err := hc.Decode(p.Data()); err == nil {
+			for _, sp := range hc.Subpaths(all) {
+				if len(sp) > 1 {
+					subStarts = append(subStarts, sp[0].End)
+					e := sp[len(sp)-1].End
+					if sp[len(sp)-1].Kind == 'Z' {
+						e = sp[0].End
+					}
+					subEnds = append(subEnds, e)
+				}
+			}
+		}
+		inSet := func(q hc.P2, set []hc.P2) bool {
+			for _, x := range set {
+				if eqPt(q, x) {
+					return true
+				}
+			}
+			return false
+		}
 		prevEnd := first
 		for i, q := range qs {
 			all, _ := hc.Decode(q.Data())
@@ -744,7 +764,7 @@ func oracleSplitAt(c *hc.Ctx) {
 				break
 			}
 			for k, sg := range all {
-				if k > 0 && sg.Kind == 'M' {
+				if k > 0 && sg.Kind == 'M' && !(multi != "" && inSet(sg.End, subStarts) && inSet(all[k-1].End, subEnds)) {
 					bad = fmt.Sprintf("piece %d is not one continuous curve", i)
 				}
 			}
@@ -754,7 +774,7 @@ func oracleSplitAt(c *hc.Ctx) {
 				c.Count("splitat empty-piece")
 			}
 			// (a cut that falls on the first 1e-10 of an arc leaves a gap of a few ulp: MoveTo(EllipsePos(theta1)))
-			if !eqPt(start, prevEnd) {
+			if !eqPt(start, prevEnd) && !(multi != "" && i > 0 && inSet(prevEnd, subEnds) && inSet(start, subStarts)) {
 				if i == 0 {
 					bad = "the first piece does not start at the start of the path"
 				} else {
@@ -769,7 +789,7 @@ func oracleSplitAt(c *hc.Ctx) {
 			prevEnd = end
 		}
 		if bad != "" {
-			c.Fail("splitat-not-consecutive"+cs, bad, replay)
+			c.Fail("splitat-not-consecutive"+cs+multi, bad, replay)
 			continue
 		}
 
@@ -808,14 +828,14 @@ func oracleSplitAt(c *hc.Ctx) {
 		if bad == "" && sumTrue > T*(1+1e-3) {
 			// every piece lies on the path and the path is covered, but a stretch is drawn twice: two
 			// cuts came out in the wrong order and the piece between them runs backwards
-			c.Fail("splitat-overlap"+cs, fmt.Sprintf("the pieces overlap: their total arc length is %.6g, the path's %.6g", sumTrue, T), replay)
+			c.Fail("splitat-overlap"+cs+multi, fmt.Sprintf("the pieces overlap: their total arc length is %.6g, the path's %.6g", sumTrue, T), replay)
 			continue
 		}
 		if bad == "" && sumTrue < T*(1-1e-3) {
 			bad = fmt.Sprintf("the pieces have total arc length %.6g, the path %.6g", sumTrue, T)
 		}
 		if bad != "" {
-			c.Fail("splitat-geometry"+cs, bad, replay)
+			c.Fail("splitat-geometry"+cs+multi, bad, replay)
 			continue
 		}
 		c.Count("splitat geometry-ok")
@@ -831,7 +851,7 @@ func oracleSplitAt(c *hc.Ctx) {
 			sumLen += l
 		}
 		if !lenOK || math.Abs(sumLen-L) > 0.01*L {
-			c.Fail("splitat-length-sum"+cs, fmt.Sprintf("piece lengths sum to %.6g, Length() = %.6g (arc length %.6g)", sumLen, L, T), replay)
+			c.Fail("splitat-length-sum"+cs+multi, fmt.Sprintf("piece lengths sum to %.6g, Length() = %.6g (arc length %.6g)", sumLen, L, T), replay)
 		}
 
 		// cut k lies at arc length ts[k]: tolerance 1% of the arc length up to the end of the segment
@@ -854,7 +874,7 @@ func oracleSplitAt(c *hc.Ctx) {
 			if e := math.Abs(cum - sorted[k]); e > 0.01*pre && worst == "" {
 				worst = fmt.Sprintf("cut %d requested at %.6g lies at arc length %.6g (off by %.2f%% of the %.6g up to the end of its %c segment)", k, sorted[k], cum, 100*e/pre, pre, segs[si].Kind)
 				// the position depends on the lengths of all segments up to and including this one
-				c.Fail("splitat-cut-position"+causes(segs[:si+1]), worst, replay)
+				c.Fail("splitat-cut-position"+causes(segs[:si+1])+multi, worst, replay)
 			}
 		}
 		if worst == "" {
